@@ -86,6 +86,7 @@ def main(argv=None) -> int:
     ap.add_argument("--seed", type=int, default=None)
     ap.add_argument("--replay", default=None)
     ap.add_argument("--only", default=None, help="run one obligation only (debugging; evidence not written)")
+    ap.add_argument("--no-evidence", action="store_true", help="do not rewrite evidence/CXX.json (sweeps, self-tests)")
     ap.add_argument("--jobs", type=int, default=int(os.environ.get("VERIF_JOBS", "16")))
     ap.add_argument("--scale", type=float, default=float(os.environ.get("VERIF_SCALE", "1")),
                     help="multiply example budgets (debugging)")
@@ -274,7 +275,7 @@ def main(argv=None) -> int:
     exh = [o.exhaustive_note for o in prop.obligations if o.exhaustive_note]
     if exh:
         evidence["coverage"]["exhaustive_subspaces"] = exh
-    if not a.only:
+    if not a.only and not a.no_evidence:
         os.makedirs(os.path.join(VERIF, "evidence"), exist_ok=True)
         with open(os.path.join(VERIF, "evidence", f"{pid}.json"), "w") as f:
             json.dump(evidence, f, indent=1, sort_keys=True)
